@@ -167,6 +167,19 @@ package ipfix
 //@     step [value] fdValue(fields[len(fields)-1], tr.FieldSpecifiers[i], m, readLength, d.reader)
 //@     decreases len(tr.FieldSpecifiers) - i
 
+// the shortest data record a template describes (RFC 7011 3.3.1: padding is shorter than any record);
+// specMinRec names the function minRecordLen computes (a pure function of the template and the information model)
+//@ uninterp specMinRec(tr TemplateRecord) mathint
+//@ func (TemplateFieldSpecifier).minLen
+//@   ensures 0 <= result && result <= 65535
+//@ func (TemplateRecord).minRecordLen
+//@   ensures result >= 1
+//@   ensures [trusted.def] result == specMinRec(tr)
+//@   loop 1
+//@     invariant 0 <= n && n <= 65535 * range_i
+//@   loop 2
+//@     invariant 0 <= n && n <= 65535 * (len(tr.ScopeFieldSpecifiers) + range_i)
+
 // ---- sets and messages --------------------------------------------------------------------------
 
 //@ func NewDecoder
@@ -200,6 +213,8 @@ package ipfix
 //@     invariant [kept] msg.DataSets.off == old(msg.DataSets.off) && (forall q :: msg.DataSets.off <= q && q < msg.DataSets.off + old(len(msg.DataSets)) ==> msg.DataSets.arr[q] == old(msg.DataSets.arr)[q])
 //@     invariant [nodata] setHeader.SetID <= 255 ==> len(msg.DataSets) == old(len(msg.DataSets))
 //@     invariant [unk] setHeader.SetID > 255 && !cacheHas(old(mem), d.raddr, setHeader.SetID) ==> err != nil && len(msg.DataSets) == old(len(msg.DataSets))
+//@     invariant [rule] minLen >= 1 && (setHeader.SetID > 255 && cacheHas(old(mem), d.raddr, setHeader.SetID) ==> minLen == specMinRec(tr))
+//@     exit [allrecords] err == nil && setHeader.SetID > 255 && setHeader.Length >= d.reader.count - startCount ==> setHeader.Length - (d.reader.count - startCount) < specMinRec(tr) || len(d.reader.data) < specMinRec(tr)   // records are decoded as long as one more fits in the set; what is left is padding
 //@     invariant [tpl] setHeader.SetID > 255 && cacheHas(old(mem), d.raddr, setHeader.SetID) ==> tr == cacheGet(old(mem), d.raddr, setHeader.SetID)   // every record of the set is decoded with the template retrieved for (exporter, set id)
 //@     step [record] len(msg.DataSets) == iter(len(msg.DataSets)) || (len(msg.DataSets) == iter(len(msg.DataSets)) + 1 && setHeader.SetID > 255)
 //@     decreases len(d.reader.data) + (err == nil ? 1 : 0)
